@@ -529,15 +529,27 @@ func (w *World) Exec(line string) (res Result) {
 			return bad
 		}
 		return ok(fmt.Sprintf("n:%d", t.m.Height()))
-	case "iter", "seek":
+	case "iter", "seek", "iterstop", "seekstop":
 		t := tree(toks[1])
 		if t == nil {
 			return bad
 		}
 		var out []string
-		cb := func(k, v interface{}) error { out = append(out, showKey(k)+"="+showVal(v)); return nil }
+		stopAt := -1
+		if toks[0] == "iterstop" {
+			stopAt = atoi(toks[2])
+		} else if toks[0] == "seekstop" {
+			stopAt = atoi(toks[3])
+		}
+		cb := func(k, v interface{}) error {
+			out = append(out, showKey(k)+"="+showVal(v))
+			if len(out)-1 == stopAt {
+				return mast.ErrIterDone
+			}
+			return nil
+		}
 		var err error
-		if toks[0] == "iter" {
+		if toks[0] == "iter" || toks[0] == "iterstop" {
 			err = t.m.Iter(ctx, cb)
 		} else {
 			var k interface{}
@@ -702,7 +714,47 @@ func (w *World) Exec(line string) (res Result) {
 			return fail(err)
 		}
 		return ok("")
-	case "diff", "difflinks":
+	case "diffcur":
+		tn := tree(toks[1])
+		if tn == nil {
+			return bad
+		}
+		var old *mast.Mast
+		if toks[2] != "-" {
+			to := tree(toks[2])
+			if to == nil {
+				return bad
+			}
+			old = to.m
+		}
+		dc, err := tn.m.StartDiff(ctx, old)
+		if err != nil {
+			return fail(err)
+		}
+		var out []string
+		for {
+			d, err := dc.NextEntry(ctx)
+			if err == mast.ErrNoMoreDiffs {
+				break
+			}
+			if err != nil {
+				return fail(err)
+			}
+			sign := "~"
+			if d.Type == mast.DiffType_Add {
+				sign = "+"
+			} else if d.Type == mast.DiffType_Remove {
+				sign = "-"
+			}
+			out = append(out, sign+showKey(d.Key)+"="+showVal(d.NewValue)+"/"+showVal(d.OldValue))
+		}
+		for i := 0; i < 2; i++ {
+			if _, err := dc.NextEntry(ctx); err != mast.ErrNoMoreDiffs {
+				return Result{Outcome: "err", ErrText: "NextEntry after the end did not return ErrNoMoreDiffs"}
+			}
+		}
+		return ok("d:" + strings.Join(out, ";"))
+	case "diff", "difflinks", "diffstop", "difffail":
 		tn := tree(toks[1])
 		if tn == nil {
 			return bad
@@ -717,7 +769,11 @@ func (w *World) Exec(line string) (res Result) {
 		}
 		var out []string
 		var err error
-		if toks[0] == "diff" {
+		if toks[0] != "difflinks" {
+			at := -1
+			if toks[0] != "diff" {
+				at = atoi(toks[3])
+			}
 			err = tn.m.DiffIter(ctx, old, func(added, removed bool, k, av, rv interface{}) (bool, error) {
 				sign := "~"
 				if added {
@@ -726,6 +782,12 @@ func (w *World) Exec(line string) (res Result) {
 					sign = "-"
 				}
 				out = append(out, sign+showKey(k)+"="+showVal(av)+"/"+showVal(rv))
+				if len(out)-1 == at {
+					if toks[0] == "diffstop" {
+						return false, nil
+					}
+					return false, ErrInjected
+				}
 				return true, nil
 			})
 		} else {
